@@ -131,13 +131,16 @@ Fixpoint quiesce (fuel : nat) (b : BoardState) (alpha beta : Z) (s : sstate) : r
   match fuel with
   | O => Err 99
   | S f =>
-      let s := node_searched s in
-      let stand_pat := get_evaluation b in
-      if beta <=? stand_pat then Ok (beta, s)
+      let '(expired, s) := out_of_time s in
+      if expired then Ok (NEG_INF, s)
       else
-        let alpha := if alpha <? stand_pat then stand_pat else alpha in
-        let '(moves, s) := do_sort (generate_moves zt b CapturesOnly) s in
-        q_loop (quiesce f) moves alpha beta s
+        let s := node_searched s in
+        let stand_pat := get_evaluation b in
+        if beta <=? stand_pat then Ok (beta, s)
+        else
+          let alpha := if alpha <? stand_pat then stand_pat else alpha in
+          let '(moves, s) := do_sort (generate_moves zt b CapturesOnly) s in
+          q_loop (quiesce f) moves alpha beta s
   end.
 
 Definition rank_moves (s : sstate) (ply : Z) (moves : list BoardState) : res (list BoardState) :=
